@@ -1086,6 +1086,85 @@ Section RoundTrip2.
   Qed.
 End RoundTrip2.
 
+(** ---------- the 2-D document whose elements carry their own depths ---------- *)
+Section RoundTrip2L.
+  Variable sortf : qty -> list aelem -> list aelem.
+  Hypothesis sortf_perm : forall q l, Permutation (sortf q l) l.
+  Variables (q1 : qty) (w1 : N) (q2 : qty) (w2 : N) (p1 p2 d1 d2 : N).
+  Variable fold : option N.
+  Variable ul : bool.
+  Hypothesis Hw1 : okw w1.
+  Hypothesis Hw2 : okw w2.
+  Hypothesis Hd1 : d1 <= max_depth q1 w1.
+  Hypothesis Hd2 : d2 <= max_depth q2 w2.
+  Hypothesis Hp1 : char_ok p1 = false /\ is_trim_ws p1 = false.
+  Hypothesis Hp2 : char_ok p2 = false.
+  Hypothesis Hp12 : p1 <> p2.
+
+  Definition st_ok_l (e : st_elem_l) : Prop :=
+    fst (fst e) <= d1 /\ fst (snd e) <= d2 /\
+    Forall (elem_wf q1 (fst (fst e))) (snd (fst e)) /\ Disj q1 w1 (snd (fst e)) /\
+    Forall (elem_wf q2 (fst (snd e))) (snd (snd e)) /\ Disj q2 w2 (snd (snd e)).
+  Definition st_norm_l (e : st_elem_l) : st_elem :=
+    (sortf q1 (regroup (fst (fst e)) (snd (fst e))), sortf q2 (regroup (fst (snd e)) (snd (snd e)))).
+  Definition piece_l (e : st_elem_l) : list N :=
+    to_ascii (fst (fst e)) fold ul (snd (fst e)) ++ [p2] ++ to_ascii (fst (snd e)) fold ul (snd (snd e)).
+
+  Lemma st_loop_pieces_l : forall l a b l_acc, a <= d1 -> b <= d2 -> Forall st_ok_l l ->
+    st_loop sortf q1 w1 q2 w2 p2 (map piece_l l ++ [last_piece p2 d1 d2]) a b l_acc =
+    StOk d1 d2 (l_acc ++ filter keep (map st_norm_l l)).
+  Proof.
+    induction l as [|e l IH]; intros a b l_acc Ha Hb Hl.
+    - cbn [map app filter]. rewrite app_nil_r.
+      apply (st_loop_last sortf sortf_perm q1 w1 q2 w2 p2 d1 d2 Hw1 Hw2 Hd1 Hd2 Hp2); assumption.
+    - inversion Hl as [|? ? [L1 [L2 [O1 [O2 [O3 O4]]]]] Hl']; subst.
+      cbn [map app]. unfold piece_l at 1. cbn [app].
+      rewrite st_loop_step by (intros Z; symmetry in Z; exact (app_cons_not_nil _ _ _ Z)).
+      rewrite (split_once_first p2 _ (to_ascii (fst (fst e)) fold ul (snd (fst e)))).
+      2:{ apply (chars_ok_notin p2 _ Hp2). apply to_ascii_chars. }
+      rewrite (ascii_roundtrip sortf sortf_perm q1 w1 (fst (fst e)) fold ul (snd (fst e)) Hw1 ltac:(lia) O1 O2).
+      rewrite (ascii_roundtrip sortf sortf_perm q2 w2 (fst (snd e)) fold ul (snd (snd e)) Hw2 ltac:(lia) O3 O4).
+      rewrite keep_match.
+      rewrite IH by (try lia; exact Hl').
+      cbn [map filter]. change (sortf q1 (regroup (fst (fst e)) (snd (fst e))), sortf q2 (regroup (fst (snd e)) (snd (snd e)))) with (st_norm_l e).
+      destruct (keep (st_norm_l e)); [rewrite <- app_assoc|]; reflexivity.
+  Qed.
+
+  Theorem st_ascii_roundtrip_l l : Forall st_ok_l l ->
+    st_from_ascii sortf q1 w1 q2 w2 p2 p1 (st_to_ascii_l p1 p2 d1 d2 fold ul l) =
+    StOk d1 d2 (filter keep (map st_norm_l l)).
+  Proof.
+    intros Hl. destruct Hp1 as [Hc1 Ht1].
+    set (fm := flat_map (fun X : list N => X ++ [p1]) (map piece_l l)).
+    set (m := fm ++ adec d1 ++ [47; 32; p2] ++ adec d2).
+    assert (D1 : st_to_ascii_l p1 p2 d1 d2 fold ul l = (p1 :: m) ++ [47; 10]).
+    { unfold st_to_ascii_l.
+      change (fun e : st_elem_l => [p1] ++ to_ascii (fst (fst e)) fold ul (snd (fst e)) ++ [p2] ++ to_ascii (fst (snd e)) fold ul (snd (snd e)))
+        with (fun e : st_elem_l => [p1] ++ piece_l e).
+      rewrite (pieces_layout p1 piece_l (adec d1 ++ [47; 32; p2] ++ adec d2 ++ [47; 10]) l).
+      cbn [flat_map map app]. fold fm. unfold m. rewrite <- !app_assoc. reflexivity. }
+    assert (D2 : (p1 :: m) ++ [47] = flat_map (fun X : list N => X ++ [p1]) ([] :: map piece_l l) ++ last_piece p2 d1 d2).
+    { cbn [flat_map app]. fold fm. unfold m, last_piece. rewrite <- !app_assoc. reflexivity. }
+    unfold st_from_ascii. rewrite D1, (trim_tail p1 m Ht1), D2.
+    rewrite split_on_pieces.
+    - cbn [app st_loop]. rewrite (st_loop_pieces_l l 0 0 [] ltac:(lia) ltac:(lia) Hl). reflexivity.
+    - constructor; [intros []|]. apply Forall_forall. intros X HX. apply in_map_iff in HX. destruct HX as [e [<- _]].
+      unfold piece_l. intros Hin. apply in_app_or in Hin. destruct Hin as [Hin|Hin].
+      + exact (chars_ok_notin p1 _ Hc1 (to_ascii_chars _ _ _ _) Hin).
+      + cbn [app] in Hin. destruct Hin as [Hin|Hin]; [congruence|].
+        exact (chars_ok_notin p1 _ Hc1 (to_ascii_chars _ _ _ _) Hin).
+    - unfold last_piece. intros Hin. apply in_app_or in Hin. destruct Hin as [Hin|Hin].
+      + exact (chars_ok_notin p1 _ Hc1 (adec_chars _) Hin).
+      + cbn [app] in Hin. destruct Hin as [Hin|[Hin|[Hin|Hin]]].
+        * subst p1. discriminate Hc1.
+        * subst p1. discriminate Hc1.
+        * congruence.
+        * apply in_app_or in Hin. destruct Hin as [Hin|Hin].
+          -- exact (chars_ok_notin p1 _ Hc1 (adec_chars _) Hin).
+          -- destruct Hin as [Hin|[]]. subst p1. discriminate Hc1.
+  Qed.
+End RoundTrip2L.
+
 (** the prefix characters of the three quantities are separators *)
 Lemma prefix_chars_ok : forall p, In p [116; 115; 102] -> char_ok p = false /\ is_trim_ws p = false.
 Proof. intros p [<-|[<-|[<-|[]]]]; split; reflexivity. Qed.
